@@ -834,6 +834,8 @@ impl Database {
         // The version check and the write happen under one write lock, so two writers
         // presenting the same base version can never both pass the check and a write
         // computed from a stale read can not overwrite a newer one.
+        #[cfg(nun_verif)]
+        crate::verif::yield_point("set_value.map.write");
         let new_version = {
             let mut db = self.map.write().unwrap();
             match db.get(&change.key).cloned() {
